@@ -766,6 +766,74 @@ class Flattener:
                 _T().visit(node)
                 ast.fix_missing_locations(node)
 
+    # --------------------------------------------------------- alias propagation
+    def propagate_aliases(self, fi: FuncInfo, node: ast.AST) -> None:
+        """copy propagation of hoisted stable references: a local assigned exactly once, in the straight-line prefix
+        of the function (before any branch or loop), from an attribute chain that nothing in the repo ever re-binds
+        (`lock = self._receivelock`, `read = Message.from_io`, `log = self._receiver_log`) is replaced by that chain
+        at its uses.  Snapshots of mutable fields (`items = self._items`) are left alone."""
+        from .util import _chain_mutable, _is_chain
+
+        body = getattr(node, "body", None)
+        if not isinstance(body, list):
+            return
+        stores: dict[str, int] = {}
+        for x in ast.walk(node):
+            if isinstance(x, ast.Name) and isinstance(x.ctx, (ast.Store, ast.Del)):
+                stores[x.id] = stores.get(x.id, 0) + 1
+            elif isinstance(x, (ast.FunctionDef, ast.AsyncFunctionDef)) and x is not node:
+                stores[x.name] = stores.get(x.name, 0) + 1
+            elif isinstance(x, ast.ExceptHandler) and x.name:
+                stores[x.name] = stores.get(x.name, 0) + 1
+            elif isinstance(x, (ast.Global, ast.Nonlocal)):
+                for n_ in x.names:
+                    stores[n_] = stores.get(n_, 0) + 2
+        params = {a.arg for a in node.args.posonlyargs + node.args.args + node.args.kwonlyargs} | ({node.args.vararg.arg} if node.args.vararg else set()) | ({node.args.kwarg.arg} if node.args.kwarg else set())
+        mapping: dict[str, ast.AST] = {}
+        for s in body:
+            if isinstance(s, ast.Expr) and isinstance(s.value, ast.Constant):
+                continue
+            if isinstance(s, (ast.Assign, ast.AnnAssign)):
+                tgt = s.targets[0] if isinstance(s, ast.Assign) and len(s.targets) == 1 else (s.target if isinstance(s, ast.AnnAssign) else None)
+                v = s.value
+                if isinstance(tgt, ast.Name) and tgt.id not in params and stores.get(tgt.id) == 1 and isinstance(v, ast.Attribute) and _is_chain(v) \
+                        and not _chain_mutable(self.repo, v):
+                    root = v
+                    while isinstance(root, ast.Attribute):
+                        root = root.value
+                    # the root must itself be stable: self / a parameter or name never re-bound here / an earlier alias
+                    if isinstance(root, ast.Name) and (stores.get(root.id, 0) == 0 or root.id in mapping):
+                        val = _SubstLoad(mapping).visit(copy.deepcopy(v)) if mapping else copy.deepcopy(v)
+                        mapping[tgt.id] = val
+                        continue
+                # other simple statements may precede / follow; stop at the first compound statement
+                continue
+            if isinstance(s, (ast.Expr, ast.AugAssign, ast.Assert, ast.Pass, ast.FunctionDef, ast.Import, ast.ImportFrom)):
+                continue
+            break
+        if not mapping:
+            return
+
+        class _P(ast.NodeTransformer):
+            def visit_Name(self_, x):  # noqa: N805
+                if isinstance(x.ctx, ast.Load) and x.id in mapping:
+                    return ast.copy_location(copy.deepcopy(mapping[x.id]), x)
+                return x
+
+            def visit_FunctionDef(self_, x):  # noqa: N805
+                # nested functions see the same single-assignment locals (closures); parameters shadow
+                shadow = {a.arg for a in x.args.posonlyargs + x.args.args + x.args.kwonlyargs}
+                if x is node or not (shadow & set(mapping)):
+                    return self_.generic_visit(x)
+                return x
+
+            def visit_Lambda(self_, x):  # noqa: N805
+                shadow = {a.arg for a in x.args.posonlyargs + x.args.args + x.args.kwonlyargs}
+                return self_.generic_visit(x) if not (shadow & set(mapping)) else x
+        _P().visit(node)
+        ast.fix_missing_locations(node)
+        self.inlined.append((fi.short, "<alias propagation: " + ", ".join(sorted(mapping)) + ">"))
+
     def flatten(self, fi: FuncInfo) -> ast.FunctionDef | None:
         if isinstance(fi.node, ast.Lambda):
             return None
@@ -774,6 +842,7 @@ class Flattener:
         names = _names_used(node) | {a.arg for a in node.args.args}
         self.normalise_dispatch(fi, node)
         node.body = self.flatten_block(node.body, fi, names, (fi.qualname,), MAXDEPTH)
+        self.propagate_aliases(fi, node)
         if not self.inlined:
             return None
         ast.fix_missing_locations(node)
